@@ -52,6 +52,8 @@ def valid_input(me, T, task, shape, rng):
         elif shape == "one-frame":
             ri, rl, ei, el = np.array([[0.0, 0.25]]), ["a"], np.array([[0.0, 0.25]]), ["b"]
         return (ri, rl, ei, el), {"frame_size": 0.25, "_evaluate_only": shape != "one-frame"}
+    if task == "chord" and shape == "empty-label-lists":
+        return (np.zeros((0, 2)), [], np.zeros((0, 2)), []), {"_metrics_only": True}
     if task == "chord":
         ri, rl, ei, el = gen.gen_chord_pair(rng, "random")
         lo, hi = ri.min(), ri.max()
@@ -128,6 +130,20 @@ def faulty_call(me, T, task, fault, fn_name, rng):
     mod_name, short = fn_name.split(".")
     fn = getattr(getattr(me, mod_name), short)
     t = T.get(task)
+    if task == "chord" and fault == "bad-pitch-class":
+        return outcome(fn, rng.choice(["H", "c", "C+", "1", "Cb#x"]))
+    if task == "chord" and fault == "bad-scale-degree":
+        return outcome(fn, rng.choice(["14", "0", "x3", "b", "3b"]))
+    if task == "util":
+        iv, labs = gen.gen_segmentation(rng, "random")
+        if fault == "sample-times-decreasing":
+            return outcome(fn, iv, labs, np.array([1.0, 0.5, 0.75]))
+        if fault == "boundaries-not-strictly-increasing":
+            return outcome(fn, np.array(rng.choice([[0.0, 1.0, 1.0, 2.0], [0.0, 2.0, 1.0]])))
+        if fault == "annotations-not-aligned":
+            iv2 = iv.copy()
+            iv2[-1, 1] += 0.5
+            return outcome(fn, iv, labs, iv2, list(labs))
     if task in ("beat", "onset"):
         ref, est = t.gen(rng, "random")
         ref, est = ref + 6.0, est + 6.0
@@ -409,8 +425,11 @@ def run(tier, seed):
                 r = random.Random("%s-%s-%d-%d" % (task, row["shape"], k, seed))
                 args, kw = valid_input(me, T, task, row["shape"], r)
                 ev_only = kw.pop("_evaluate_only", False)
+                met_only = kw.pop("_metrics_only", False)
                 for name, f in eps:
                     if ev_only and not name.endswith(".evaluate"):
+                        continue
+                    if met_only and (name.endswith(".evaluate") or name.endswith("merge_chord_intervals")):
                         continue
                     if task == "segment" and row["shape"] in ("empty_ref", "both_empty"):
                         continue
